@@ -2025,6 +2025,13 @@ impl<'a, 'ast> Typecheck<'a, 'ast> {
                 let mut generalizer =
                     TypeGeneralizer::new(level, self, &hole, bindings[0].name.span);
 
+                // The types of the bindings may already contain `forall`s (from lambdas and record
+                // fields generalized inside them) which must not capture the variables
+                // generalized here
+                for resolved_type in &resolved_types {
+                    generalizer.avoid_forall_names_in(&resolved_type.concrete);
+                }
+
                 // Once all variables inside the let has been unified we can quantify them
                 debug!("Generalize recursive at {}", level);
                 for (bind, resolved_type) in bindings.iter_mut().zip(&mut resolved_types) {
@@ -2418,6 +2425,11 @@ impl<'a, 'ast> Typecheck<'a, 'ast> {
             let hole = self.subs.hole();
 
             let mut generalizer = TypeGeneralizer::new(level, self, &hole, binds[0].span());
+            // The types of the bindings may already contain `forall`s (from lambdas or bindings
+            // generalized inside them) which must not capture the variables generalized here
+            for bind in &*binds {
+                generalizer.avoid_forall_names_in(&bind.resolved_type);
+            }
             for bind in &mut *binds {
                 generalize::ReplaceVisitor {
                     generalizer: &mut generalizer,
